@@ -40,7 +40,7 @@ static void digest_dyn(const DynData& d, Out& out) {
 }
 
 static const char* const kDynFn[] = {"dr1_num_vectorxd", "dr1_num_stdvector", "dr2_num_vectorxd", "dr1_nested", "dr1_spline_residual",
-                                     "dr1_num_two_dynamic"};
+                                     "dr1_num_two_dynamic", "dr2_num_two_dynamic"};
 
 struct DynSt {
   const DynData* a;
@@ -128,10 +128,24 @@ static void dyn_run(OpInst& op, Out& out) {
       put_mat(out, J);
       break;
     }
+    case 6: {  // second order in two dynamically sized arguments
+      const auto [f, J, H] = smooth::diff::dr<2, Type::Numerical>(
+        [&a, opp](const Eigen::VectorXd& v, const std::vector<smooth::SO3d>& gs) -> double {
+          h::cb_tick(*opp);
+          double r = 0.5 * v.dot(a.A * v);
+          for (std::size_t i = 0; i < gs.size(); ++i) r += gs[i].log().squaredNorm() * v(0);
+          return r;
+        },
+        smooth::wrt(a.x, a.gs));
+      out.f64(f);
+      put_mat(out, J);
+      put_mat(out, H);
+      break;
+    }
     default: out.tag("?"); break;
   }
 }
-static constexpr OpDef dyn_def = {"diffdyn.RX", "E", 6, kDynFn, 4, 10, 0, 1, &dyn_prep, &dyn_run};
+static constexpr OpDef dyn_def = {"diffdyn.RX", "E", 7, kDynFn, 4, 10, 0, 1, &dyn_prep, &dyn_run};
 static Registrar reg_dyn(&dyn_def);
 
 }  // namespace ops
